@@ -15,6 +15,7 @@ import TvFs.Proofs.Durable4
 import TvFs.Proofs.Repairs
 import TvFs.Proofs.CommittedSpec
 import TvFs.Proofs.DurableX
+import TvFs.Proofs.CrashTree
 
 namespace TV.C07
 open TV.Fs
@@ -102,24 +103,24 @@ theorem C07_witness_staleHandle : ¬ C07_Statement := by
   revert this
   decide
 
-/-- F-C07-12: /d/e is made durable (`sync_dir /d/e` enters it into /d), but /d itself never is (its
-    parent is not synced).  The crash keeps the orphan keyed by its path; a new /d created and made
-    durable after the restart contains the old /d/e -/
-def hist12 : List (Op × Ora) :=
-  q [.mkdir d, .mkdir (d ++ [101]), .syncDir (d ++ [101]), .crash, .mkdir d, .syncDir []]
+/-- F-C07-12 (what is left of it: names re-created over durable state).  /d is durable; it is removed
+    and created again without syncing the root; /d/e is made durable inside the *new* /d.  After the
+    crash the old /d — still the durable one — contains the new directory's child: durable state is
+    keyed by the path, not by the directory -/
+def hist12b : List (Op × Ora) :=
+  q [.mkdir d, .syncDir [], .rmdir d, .mkdir d, .mkdir (d ++ [101]), .syncDir (d ++ [101])]
 
-theorem C07_witness_orphanResurfaces : ¬ C07_Statement := by
+theorem C07_witness_recreatedDir : ¬ C07_Statement := by
   intro h
-  have := h {} hist12 {} (d ++ [101]) (by decide)
+  have := h {} hist12b {} (d ++ [101]) (by decide)
   revert this
   decide
 
-/-- what the two sides say: the implementation shows the old directory inside the new one -/
 theorem witness_F_C07_12 :
-    viewOfFx Fixes.committed (runStFx Fixes.committed {} St.init (hist12 ++ [(Op.crash, ({} : Ora))])).fs
+    viewOfFx Fixes.committed (runStFx Fixes.committed {} St.init (hist12b ++ [(Op.crash, ({} : Ora))])).fs
       (d ++ [101]) = .dir [] ∧
-    sView (sRunStFx Fixes.committed {} Spec.init (hist12 ++ [(Op.crash, ({} : Ora))])).l (d ++ [101]) = .none ∧
-    matchesFinding 12 (hist12.map fun x => x.1) = true := by decide
+    sView (sRunStFx Fixes.committed {} Spec.init (hist12b ++ [(Op.crash, ({} : Ora))])).l (d ++ [101]) = .none ∧
+    matchesFinding 12 (hist12b.map fun x => x.1) = true := by decide
 
 /-! ### repaired findings: `witness_F_…` / `C07_witness_…` on the code before the repair,
     `fixed_F_…` on the committed model -/
@@ -220,17 +221,120 @@ theorem fixed_F_C07_5 : implAfterCrash fx5 hist5 d = specAfterCrash fx5 hist5 d 
 
 /-! ### what is proved -/
 
-/-- crash ∘ crash = crash (any block sizes, any torn-write oracles); `Fs::crash` is untouched by the
-    repairs -/
-theorem crash_idempotent (s : Fs) (b b' : Option Nat) (t t' : List Nat) :
+/-- F-C07-12a (crash-image repair): /d/e is made durable (`sync_dir /d/e` enters it into /d), but /d
+    itself never is (its parent is not synced).  The crash kept the orphan keyed by its path; a new /d
+    created and made durable after the restart contained the old /d/e -/
+def hist12 : List (Op × Ora) :=
+  q [.mkdir d, .mkdir (d ++ [101]), .syncDir (d ++ [101]), .crash, .mkdir d, .syncDir []]
+
+/-- the committed repairs without the crash-image repair -/
+def fxBefore12a : Fixes := { Fixes.committed with crashTree := false }
+
+theorem C07_witness_orphanResurfaces :
+    ¬ (∀ (p : Path),
+        let st := runStFx fxBefore12a {} St.init (hist12 ++ [(Op.crash, ({} : Ora))])
+        let sp := sRunStFx fxBefore12a {} Spec.init (hist12 ++ [(Op.crash, ({} : Ora))])
+        ancestorsAreDirs sp.l p = true → viewOfFx fxBefore12a st.fs p = sView sp.l p) := by
+  intro h
+  have := h (d ++ [101]) (by decide)
+  revert this
+  decide
+
+theorem witness_F_C07_12a :
+    viewOfFx fxBefore12a (runStFx fxBefore12a {} St.init (hist12 ++ [(Op.crash, ({} : Ora))])).fs
+      (d ++ [101]) = .dir [] ∧
+    sView (sRunStFx fxBefore12a {} Spec.init (hist12 ++ [(Op.crash, ({} : Ora))])).l (d ++ [101]) = .none ∧
+    matchesFinding 13 (hist12.map fun x => x.1) = true := by decide
+
+/-- with the repair the orphan is gone right after the first crash, and the new /d is empty -/
+theorem fixed_F_C07_12a :
+    viewOfFx Fixes.committed (runStFx Fixes.committed {} St.init (hist12 ++ [(Op.crash, ({} : Ora))])).fs
+      (d ++ [101]) = .none ∧
+    viewOfFx Fixes.committed (runStFx Fixes.committed {} St.init (hist12 ++ [(Op.crash, ({} : Ora))])).fs d
+      = .dir [] ∧
+    viewOfFx Fixes.committed (runStFx Fixes.committed {} St.init (hist12.take 4)).fs (d ++ [101]) = .none ∧
+    (∀ p ∈ [d, d ++ [101], a, b],
+      viewOfFx Fixes.committed (runStFx Fixes.committed {} St.init (hist12 ++ [(Op.crash, ({} : Ora))])).fs p =
+      sView (sRunStFx Fixes.committed {} Spec.init (hist12 ++ [(Op.crash, ({} : Ora))])).l p) := by decide
+
+/-! ### state-level theorems about the crash of the committed code: `crashFx Fixes.committed`
+    (= forget the durable names of unreachable entries, then `Fs::crash` as before) -/
+
+abbrev crashC (s : Fs) (b : Option Nat) (t : List Nat) : Fs := crashFx Fixes.committed s b t
+
+/-- crash ∘ crash = crash (any block sizes, any torn-write oracles), for every repair-flag combination -/
+theorem crash_idempotent (fx : Fixes) (s : Fs) (b b' : Option Nat) (t t' : List Nat) :
+    crashFx fx (crashFx fx s b t) b' t' = crashFx fx s b t := crashFx_crashFx fx s b b' t t'
+
+example : crashC (crashC { Fs.init with pending := [.createFile [1]] } none []) (some 2) [1] =
+    crashC { Fs.init with pending := [.createFile [1]] } none [] := crash_idempotent _ _ _ _ _ _
+
+/-- the crash image is a tree: every proper ancestor (below the root) of a surviving file or directory
+    is a surviving directory — for every state, block size and torn-write oracle -/
+theorem crash_image_is_tree (s : Fs) (b : Option Nat) (t : List Nat) (p : Path)
+    (hp : (alookup p (crashC s b t).files).isSome = true ∨ (crashC s b t).dirs.contains p = true) :
+    ∀ a ∈ properAncestors p, (crashC s b t).dirs.contains a = true :=
+  crashFx_tree Fixes.committed rfl s b t p hp
+
+/-- an inode whose directory entry is durable *and reachable* (every proper ancestor is a durable
+    directory) keeps exactly its persisted content across a crash (atomic-write configuration): synced
+    data is never lost or altered.  The reachability hypothesis is new with the crash-image repair: it is
+    the property's "present iff its directory entry was made durable" read recursively. -/
+theorem synced_never_lost (s : Fs) (t : List Nat) (p : Path) (hp : s.synced.contains p = true)
+    (ha : attachedTo (durableDirs s) p = true) :
+    alookup p (crashC s none t).files = alookup p s.files ∧
+    ((crashC s none t).dirs.contains p = s.dirs.contains p) := by
+  have hp' : (forgetUnreachable s).synced.contains p = true := by
+    rw [forget_synced_contains, hp, ha]; rfl
+  constructor
+  · exact alookup_filter_of_mem p (forgetUnreachable s).synced hp' s.files
+  · show ((forgetUnreachable s).dirs.filter fun d => (forgetUnreachable s).synced.contains d).contains p = _
+    rw [Bool.eq_iff_iff]
+    simp only [List.contains_iff_mem, List.mem_filter, forget_dirs]
+    constructor
+    · exact fun h => h.1
+    · exact fun h => ⟨h, by simpa using hp'⟩
+
+example : (Fs.init).synced.contains [] = true := by decide
+
+/-- …an inode without a durable entry is gone, whatever was fsynced into it… -/
+theorem unsynced_entry_lost (s : Fs) (b : Option Nat) (t : List Nat) (p : Path)
+    (hp : s.synced.contains p = false) :
+    alookup p (crashC s b t).files = none := by
+  have hp' : (forgetUnreachable s).synced.contains p = false := by
+    rw [forget_synced_contains, hp]; rfl
+  show alookup p (crash (forgetUnreachable s) b t).files = none
+  simp only [crash]
+  exact alookup_filter_of_not_mem p (forgetUnreachable s).synced hp' _
+
+/-- …and so is an entry with a durable name below a directory that is not durable itself (the orphan
+    of F-C07-12a): neither file nor directory survives -/
+theorem unreachable_entry_lost (s : Fs) (b : Option Nat) (t : List Nat) (p : Path)
+    (ha : attachedTo (durableDirs s) p = false) :
+    alookup p (crashC s b t).files = none ∧ (crashC s b t).dirs.contains p = false := by
+  have hp' : (forgetUnreachable s).synced.contains p = false := by
+    rw [forget_synced_contains, ha]; simp
+  constructor
+  · show alookup p (crash (forgetUnreachable s) b t).files = none
+    simp only [crash]
+    exact alookup_filter_of_not_mem p (forgetUnreachable s).synced hp' _
+  · show ((forgetUnreachable s).dirs.filter fun d => (forgetUnreachable s).synced.contains d).contains p = false
+    rw [Bool.eq_false_iff]
+    intro h
+    simp only [List.contains_iff_mem, List.mem_filter] at h
+    have : (forgetUnreachable s).synced.contains p = true := by simpa using h.2
+    rw [hp'] at this; cases this
+
+/-- every unsynced operation is rolled back: without torn writes the post-crash state does not
+    depend on the pending log at all -/
+theorem pending_rolled_back (s : Fs) (t : List Nat) (ops : List POp) :
+    crashC { s with pending := ops } none t = crashC { s with pending := [] } none t := rfl
+
+/-- the same facts for `Fs::crash` as it was before the crash-image repair -/
+theorem crash_idempotent_before (s : Fs) (b b' : Option Nat) (t t' : List Nat) :
     crash (crash s b t) b' t' = crash s b t := crash_crash s b b' t t'
 
-example : crash (crash { Fs.init with pending := [.createFile [1]] } none []) (some 2) [1] =
-    crash { Fs.init with pending := [.createFile [1]] } none [] := crash_idempotent _ _ _ _ _
-
-/-- an inode whose directory entry is durable keeps exactly its persisted content across a crash
-    (atomic-write configuration): synced data is never lost or altered -/
-theorem synced_never_lost (s : Fs) (t : List Nat) (p : Path) (hp : s.synced.contains p = true) :
+theorem synced_never_lost_before (s : Fs) (t : List Nat) (p : Path) (hp : s.synced.contains p = true) :
     alookup p (crash s none t).files = alookup p s.files ∧
     ((crash s none t).dirs.contains p = s.dirs.contains p) := by
   constructor
@@ -241,20 +345,6 @@ theorem synced_never_lost (s : Fs) (t : List Nat) (p : Path) (hp : s.synced.cont
     constructor
     · exact fun h => h.1
     · exact fun h => ⟨h, by simpa using hp⟩
-
-example : (Fs.init).synced.contains [] = true := by decide
-
-/-- …and an inode without a durable entry is gone, whatever was fsynced into it -/
-theorem unsynced_entry_lost (s : Fs) (b : Option Nat) (t : List Nat) (p : Path)
-    (hp : s.synced.contains p = false) :
-    alookup p (crash s b t).files = none := by
-  simp only [crash]
-  exact alookup_filter_of_not_mem p s.synced hp _
-
-/-- every unsynced operation is rolled back: without torn writes the post-crash state does not
-    depend on the pending log at all -/
-theorem pending_rolled_back (s : Fs) (t : List Nat) (ops : List POp) :
-    crash { s with pending := ops } none t = crash { s with pending := [] } none t := rfl
 
 /-- the durable refinement for the code before the repairs (relation `D`, `dsim_step`, `crash_view`) -/
 theorem C07_partial_before (h : List Op) (hf : flatRun Live.init h = true) (ora : Ora) (n : Nat) :
